@@ -9,7 +9,7 @@ ASSUMPTIONS = [
 
 RULE = ("grammar documents (spec) and structurally mutated grammar/fixture documents (specmut), each validated 7 times: "
         "both continue-on-errors settings x (same document object twice, freshly loaded document), plus the document re-serialised "
-        "with reversed member order; a sixth of the grammar documents go through a JSON file, a sixth through a YAML file. Compared: "
+        "with reversed member order, plus a validator object that has validated another document before; a sixth of the grammar documents go through a JSON file, a sixth through a YAML file. Compared: "
         "error and warning message sets of all runs of one mode, stop-mode errors included in continue-mode errors, "
         "IsValid <=> no errors, separately returned warnings = warnings of the main result, no duplicate messages")
 
@@ -45,9 +45,9 @@ def judge(case, go):
         def errs(r):
             return S.norm_msgs_circular(r["errors"])
         # (a) fresh validations of the document: same object first time, freshly loaded, re-serialised, repetitions
-        fresh = [r for r in group if r["tag"] in ("same", "reloaded", "reordered")]
+        fresh = [r for r in group if r["tag"] in ("same", "reloaded", "reordered", "usedvalidator")]
         # (b) the same *loads.Document object validated again (second time, and the corpus repetitions)
-        again = [r for r in group if r["tag"] not in ("same", "reloaded", "reordered")]
+        again = [r for r in group if r["tag"] not in ("same", "reloaded", "reordered", "usedvalidator")]
         e0, w0 = errs(fresh[0]), set(fresh[0]["warnings"])
         for r in fresh[1:]:
             if errs(r) != e0:
